@@ -6,10 +6,12 @@ import Driver.Ops.Drex
 import Driver.Ops.Discrete
 import Driver.Ops.Diag
 import Driver.Ops.Scsv
+import Driver.Ops.Geom
 /-! Line-protocol driver over the executable models (ModelF = Float instantiation, ModelD).
 One request per line, one response per line. Each area registers a handler below. -/
 
 def handlers : List (List String → Option String) := [
+  Ops.Geom.handle,
   Ops.Flow.handle,
   Ops.Tensors.handle,
   Ops.ScsvOps.handle,
